@@ -254,6 +254,8 @@ pub struct Inproc {
     sentinel: UdpSocket,
     sent_ctr: u64,
     pub drops_at_start: Option<u64>,
+    /// the StatsQueue the server publishes its per-client snapshots to (the harness is the reporter)
+    pub queue: Arc<StatsQueue>,
 }
 
 static SERVER_CTR: std::sync::atomic::AtomicU64 = std::sync::atomic::AtomicU64::new(0);
@@ -273,14 +275,15 @@ impl Inproc {
         let (ptx, prx) = channel::<Result<String, String>>();
         let n = SERVER_CTR.fetch_add(1, std::sync::atomic::Ordering::Relaxed);
         let tname = name.unwrap_or_else(|| format!("worker-h{}", n));
+        let queue = Arc::new(StatsQueue::new(4096));
+        let q_for_server = queue.clone();
         let handle = std::thread::Builder::new()
             .name(tname)
             .stack_size(8 << 20)
             .spawn(move || {
                 let built = catch_unwind(AssertUnwindSafe(|| {
                     let sock = mio::net::UdpSocket::from_socket(std_sock).expect("mio from_socket");
-                    let q = Arc::new(StatsQueue::new(4));
-                    Server::new(&cfg, sock, q)
+                    Server::new(&cfg, sock, q_for_server)
                 }));
                 let mut server = match built {
                     Ok(s) => {
@@ -328,6 +331,7 @@ impl Inproc {
             sentinel: client_socket(),
             sent_ctr: 0,
             drops_at_start,
+            queue,
         })
     }
 
